@@ -1,3 +1,4 @@
+import Treepath.Proofs.Drive
 import Treepath.Proofs.EvalLemmas
 import Treepath.Proofs.NodeLemmas
 /- C02 — recursive descent visits every node once, in document pre-order -/
@@ -64,6 +65,21 @@ theorem preorder_members (n : MNode J) (k : String) (v : J) (rest : List (String
 
 theorem preorder_items (n : MNode J) (i : Nat) (x : J) (rest : List J) :
     preXs n i (x :: rest) = preNodes (.child n (.idx i) x) x ++ preXs n (i+1) rest := by simp [preXs]
+
+/-- **the traverser performs the pre-order descent.**  For every JSON tree and every path of
+child, parent and recursive steps (recursive steps in any position, any number of them),
+driving the pointer-faithful machine until `StopIteration` yields exactly `eval steps root`
+— in which a recursive step contributes the context container and its descendants in document
+pre-order (`rec_last`, `rec_then`).  The builder rejects adjacent recursive steps; the
+theorem does not even need that. -/
+theorem machine_descends_in_preorder (steps : Array (Step J)) (src : Src J)
+    (hff : ∀ s ∈ steps.toList, s.supported = true ∧ ∀ f, s ≠ .filter f)
+    (limit : Nat) (st' st'' : St J) (rs : List (MNode J)) (E evs : List (Ev J))
+    (hy : Yields J.view steps src limit freshIter rs E st')
+    (hstop : next J.view steps src limit st' = (st'', evs, .stop)) :
+    rs = eval steps.toList src.rootNode :=
+  exhausted_all steps src (quiet_of_filterFree _ hff) (clean_of_filterFree steps (fun s hs => (hff s hs).2))
+    limit st' st'' rs E evs hy hstop
 
 /-- non-vacuity: ragged document with empty containers -/
 example : (eval [.recur] (.root (.obj [("a", .arr [.int 1, .obj []]), ("e", .obj []), ("f", .null)]))).map MNode.pathStr
